@@ -42,3 +42,4 @@ import p_profile  # noqa: E402,F401
 import p_settable  # noqa: E402,F401
 import p_wrappers  # noqa: E402,F401
 import p_reference  # noqa: E402,F401
+import p_config  # noqa: E402,F401
